@@ -32,6 +32,7 @@ EXTENDS Naturals, Integers, Sequences, FiniteSets, TLC, Json
 CONSTANTS Programs,     \* <<[name, init, threads]>>: init = <<record per key>>, threads = <<ops...>>
           Now, U,       \* virtual clock, units per second
           Overhead, KLen,
+          EmitOneIn,    \* print one terminal behaviour in EmitOneIn (random sample; the invariants see every state)
           SharedBuckets \* TRUE: all keys live in one hash bucket (scc buckets hold 32 entries; which keys share one
                         \* is a per-instance random hash), so ONE guard serialises the guarded steps of every key
 
@@ -275,5 +276,5 @@ Final == [p |-> Prog.name, h |-> hist,
                                               ts |-> IF cur[k] = 0 THEN 0 ELSE gens[k][cur[k]].ts,
                                               vlen |-> IF cur[k] = 0 THEN 0 ELSE gens[k][cur[k]].val.len]],
                    tree |-> [k \in Keys |-> slot[k] # 0], len |-> cnt, mem |-> mem]]
-EmitBehaviour == AllDone => PrintT(ToJson(Final))
+EmitBehaviour == AllDone => (IF EmitOneIn = 1 \/ RandomElement(1 .. EmitOneIn) = 1 THEN PrintT(ToJson(Final)) ELSE TRUE)
 =============================================================================
